@@ -22,9 +22,10 @@ def render(mods, d, cse, outdir, kind="ekf", presentation=None, via_entry=False,
     Returns (header_path, source_path).  via_entry: go through cpp.compile / cpp.compile_ekf
     (sys.argv patched) instead of the internal generator functions."""
     ui, cpp = mods["ui"], mods["cpp"]
-    pres = presentation or {}
+    from build import resolve_presentation
+    pres = resolve_presentation(presentation, d)
     model, symtab = make_ui_model(d, ui, container=pres.get("container", set), order=pres.get("order"),
-                                  as_string=pres.get("as_string", False))
+                                  as_string=pres.get("as_string", False), proactive_simplify=pres.get("proactive_simplify", False))
     pn, sm, sn, cm = ekf_args(d, symtab, order=pres.get("order"))
     gdir = os.path.join(outdir, "generated", "formak")
     os.makedirs(gdir, exist_ok=True)
